@@ -72,7 +72,7 @@ func rulesC15(w *World, o *Out) {
 			ok := len(names) == 2 && names[0] == "Mul" && names[1] == "Quo"
 			d := "tax must be coin.Amount.Mul(num).Quo(den); found chain " + strings.Join(names, ".")
 			if ok {
-				nm, _ := loadedField(recv)
+				nm, _ := loadedField(canon(recv))
 				okRecv := nm == "Amount"
 				okNum := fl.DependsOnCall(args[0], func(c Callee) bool { return c.Name == "Num" && c.Recv == "Rat" }) != nil
 				okDen := fl.DependsOnCall(args[1], func(c Callee) bool { return c.Name == "Denom" && c.Recv == "Rat" }) != nil
